@@ -302,7 +302,7 @@ def evaluate__substring(self: XPathFunction, context: ta.ContextType = None) -> 
         start = self.get_argument(context, index=1, required=True)
         if isinstance(start, UntypedAtomic):
             start = float(start)  # function conversion rules
-        if math.isnan(start) or math.isinf(start):
+        if isinstance(start, float) and (math.isnan(start) or math.isinf(start)):
             return ''
     except (TypeError, ValueError):
         if isinstance(context, XPathSchemaContext):
@@ -319,7 +319,7 @@ def evaluate__substring(self: XPathFunction, context: ta.ContextType = None) -> 
             length = self.get_argument(context, index=2, required=True)
             if isinstance(length, UntypedAtomic):
                 length = float(length)  # function conversion rules
-            if math.isnan(length) or length <= 0:
+            if isinstance(length, float) and math.isnan(length) or length <= 0:
                 return ''
         except (TypeError, ValueError):
             if isinstance(context, XPathSchemaContext):
@@ -327,7 +327,7 @@ def evaluate__substring(self: XPathFunction, context: ta.ContextType = None) -> 
             else:
                 raise self.error('FORG0006', "the third argument must be xs:numeric") from None
 
-        if math.isinf(length):
+        if isinstance(length, float) and math.isinf(length):
             return item[max(start, 0):]
         else:
             stop = start + int(round_number(length))
@@ -488,7 +488,7 @@ def evaluate__ceiling_and_floor_functions(self: XPathFunction, context: ta.Conte
     try:
         if not isinstance(arg, (int, float, decimal.Decimal)):
             raise TypeError(f"must be real number, not {type(arg).__name__!r}")
-        elif math.isnan(arg) or math.isinf(arg):
+        elif isinstance(arg, float) and (math.isnan(arg) or math.isinf(arg)):
             return arg
 
         if self.symbol == 'floor':
